@@ -203,6 +203,21 @@ Proj(e) == [r |-> e.r,
             ck |-> IF Has(e, "ck") THEN e.ck ELSE << >>,
             msg |-> IF Has(e, "msg") THEN e.msg ELSE << >>,
             out |-> IF Has(e, "out") THEN e.out ELSE << >>]
+\* does one of the no-allocator build's fixed capacities (384 payload bytes per sentence and per reassembled
+\* message, 119 bytes of binary data, 20 characters of text) excuse an error for this operation?
+DecodeCapExcuse(bytes) ==
+    LET dm == Decode(bytes)
+    IN  dm.class # "error" /\ (OverCapacity(dm, 119, 20) \/ TextCharsOf(bytes, dm.t) > 20)
+NoneCapacityExcuse(e) ==
+    IF e.op = "decode" THEN DecodeCapExcuse(e.b)
+    ELSE IF e.op = "unarmor" THEN (6 * Len(e.b) + 7) \div 8 > 384
+    ELSE IF e.op = "line" /\ Has(e, "s")
+         THEN \/ Len(e.s.data) > 384
+              \/ LET ln == ParseLine(e.b, 0) IN ln.ok /\ Len(ln.payload) > 384
+              \/ (e.dec = 1 /\ e.r = "complete"
+                  /\ LET ua == Unarmor(e.s.data, e.s.fill) IN ua.ok /\ DecodeCapExcuse(ua.out))
+    ELSE FALSE
+
 MsgOfEv(e) == IF Has(e, "s") THEN e.s.msg ELSE IF Has(e, "msg") THEN e.msg ELSE << >>
 DataOfEv(e) == IF Has(e, "s") THEN e.s.data ELSE << >>
 TwinViol(e) ==
@@ -210,6 +225,15 @@ TwinViol(e) ==
     ELSE IF e.twinmode = "msg"
          THEN IF e.r = e.twin.r /\ MsgOfEv(e) = MsgOfEv(e.twin) /\ DataOfEv(e) = DataOfEv(e.twin) THEN {}
               ELSE V(e.twinprop, "result / payload / decoded message differs from its twin (" \o e.twinwhy \o ")")
+    ELSE IF e.twinmode = "nonecap"
+         \* this event: std build; twin: the no-allocator build.  Equal, unless the no-allocator build
+         \* returned an error that one of its fixed capacities excuses
+         THEN IF Proj(e) = Proj(e.twin) THEN {}
+              ELSE IF e.twin.r \in {"err_nmea", "err_checksum"} /\ e.r \notin {"err_nmea", "err_checksum", "panic"}
+                      /\ NoneCapacityExcuse(e) THEN {}
+              ELSE IF e.r \in {"err_nmea", "err_checksum"} /\ e.twin.r \in {"err_nmea", "err_checksum"}
+                      /\ e.op # "line" THEN {}      \* both reject a pure operation (the error category is free)
+              ELSE V(e.twinprop, "no-allocator build differs without a capacity being exceeded (" \o e.twinwhy \o ")")
     ELSE IF e.twinmode = "sent"
          \* same line with decoding on / off: whenever both return a sentence, every field but the message agrees
          THEN IF Has(e, "s") /\ Has(e.twin, "s")
